@@ -189,5 +189,30 @@ Definition check_par (prop : Z) (inp impl : sx) : sx :=
              && (accepted =? (if (fb_sack_calls r =? 1) && negb (capab =? 4) then 1 else 0))
           then verdict V_OK cls [] (L []) else verdict V_DIVERGE cls [] (L [A merr; of_bool mns; of_bool mcause; A (fb_syn_calls r); A (fb_sack_calls r)])
       end
+  (* ---- which TCP method each run of a whole request is handed (RunTraceroute -> per-run seam) *)
+  | L [A 22; A pr; A me; A q; A n], L [A status; L regs; L e2es] =>
+      match sx_zs regs, sx_zs e2es with
+      | Some regs, Some e2es =>
+          let p := mkRP (d_proto pr) 1 5 443 (d_method me) in
+          let cls := 6 + 8 * me + 64 * pr in
+          let want_reg := repeat me (Z.to_nat q) in
+          let want_e2e := repeat (e_method (rp_method (e2e_params p))) (Z.to_nat n) in
+          let spec_fail : list Z :=
+            if prop =? 20 then
+              (if status =? 2 then [20; 9]
+               (* every traceroute run of the request is started with the requested method (sack stays sack, prefer_sack stays
+                  prefer_sack: the per-run policy then decides) *)
+               else if negb (zl_eqb regs want_reg) then [20; 5]
+               (* end-to-end probes use SYN whatever the method *)
+               else if (pr =? 1) && existsb (fun m => (m =? 2) || (m =? 3)) e2es then [20; 6]
+               else [])
+            else [] in
+          match spec_fail with
+          | _ :: _ => verdict V_SPECFAIL cls spec_fail (L [])
+          | [] => if (status =? 0) && zl_eqb regs want_reg && zl_eqb e2es want_e2e then verdict V_OK cls [] (L [])
+                  else verdict V_DIVERGE cls [] (L [L (map A want_reg); L (map A want_e2e)])
+          end
+      | _, _ => badcase
+      end
   | _, _ => badcase
   end.
